@@ -135,6 +135,7 @@ class C03(common.Spec):
 
         def build():
             dest = Dest('dest')
+            stranger = edzed.Input('stranger', initdef=0)
             kw = {}
             for ev, r in ins['cond_inst']:
                 kw['cond_' + ev] = mk_cond(ev, r, True)
@@ -146,6 +147,10 @@ class C03(common.Spec):
                 kw['on_enter_' + st] = edzed.Event(dest, 'onenter')
             for st in ins['on_exit']:
                 kw['on_exit_' + st] = edzed.Event(dest, 'onexit')
+            for st in ins.get('on_exit_bad', []):
+                # a further on_exit event to a destination that does not know the event type
+                bad = edzed.Event(stranger, 'nosuch')
+                kw['on_exit_' + st] = (kw['on_exit_' + st], bad) if 'on_exit_' + st in kw else bad
             if ins['on_notrans']:
                 kw['on_notrans'] = edzed.Event(dest, 'on_notrans')
             fsm = cls('fsm', on_output=edzed.Event(dest, 'on_output'), **kw)
@@ -216,7 +221,7 @@ class C03(common.Spec):
         xact = {'log': 'XLog', 'fail': 'XFail', 'self': 'XSelf'}
         inst = ("{| i_cond_inst := %s; i_cond_meth := %s; i_enter_inst := %s; i_enter_meth := %s;\n"
                 "   i_exit_inst := %s; i_exit_meth := %s; i_on_enter := %s; i_on_exit := %s;\n"
-                "   i_on_notrans := %s; i_dur := %s; i_keep := %s |}") % (
+                "   i_on_notrans := %s; i_dur := %s; i_keep := %s; i_on_exit_bad := %s |}") % (
             clist(ins['cond_inst'], lambda x: cpair(cstr(x[0]), cbool(x[1]))),
             clist(ins['cond_meth'], lambda x: cpair(cstr(x[0]), cbool(x[1]))),
             clist(ins['enter_inst'], lambda x: cpair(cstr(x[0]), clist(x[1], act))),
@@ -225,7 +230,7 @@ class C03(common.Spec):
             clist(ins['exit_meth'], lambda x: cpair(cstr(x[0]), xact[x[1]])),
             clist(ins['on_enter'], cstr), clist(ins['on_exit'], cstr), cbool(ins['on_notrans']),
             clist(d['timed'], lambda x: cpair(cstr(x[0]), dur[x[1]])),
-            clist(ins.get('keep', []), cstr))
+            clist(ins.get('keep', []), cstr), clist(ins.get('on_exit_bad', []), cstr))
 
         def logent(e):
             k = e[0]
@@ -266,7 +271,7 @@ class C03(common.Spec):
             yield dict(case, events=evs[:i] + evs[i + 1:])
         ins = case['inst']
         for key in ('cond_inst', 'cond_meth', 'enter_inst', 'enter_meth', 'exit_inst', 'exit_meth',
-                    'on_enter', 'on_exit', 'keep'):
+                    'on_enter', 'on_exit', 'keep', 'on_exit_bad'):
             for i in range(len(ins.get(key, []))):
                 yield dict(case, inst=dict(ins, **{key: ins[key][:i] + ins[key][i + 1:]}))
 
@@ -335,6 +340,7 @@ def gen_case(rng, nstates=None):
         on_enter=[s for s in states if rng.random() < 0.5],
         on_exit=[s for s in states if rng.random() < 0.5],
         on_notrans=rng.random() < 0.6,
+        on_exit_bad=[s for s in states if rng.random() < 0.3] if rng.random() < 0.25 else [],
         # never the initial state: the FSM must get an output at all
         keep=[s for s in states[1:] if rng.random() < 0.5] if rng.random() < 0.3 else [])
     if any(st == states[0] and sc for st, sc in inst['enter_inst'] + inst['enter_meth']) \
